@@ -50,6 +50,24 @@ type guardSite struct {
 	DefName map[string]string
 	// Arith: also render every slice / array index and every shift count of the function
 	Arith bool
+	// Rets: positions of the integer results rendered at every return that is not an error return
+	// (Gen/GuardsReturns.lean: condition of the return -> values)
+	Rets []int
+	// DefAll: the integer results of a call to this function (source text of the callee), by
+	// position, stand for these Lean parameters ("" = not an integer / not used)
+	DefAll map[string][]string
+	// Args: for a call to this function (source text of the callee), the positions of the integer
+	// arguments to render (the value each has where the call is made)
+	Args map[string][]int
+	// Slices: render the bounds of every slice expression `x[lo:hi]` of the function (an absent bound is -1)
+	Slices bool
+	// OnlyRets: write only the `_returns` / `_args` definitions (the site's conditions are written elsewhere)
+	OnlyRets bool
+}
+
+type retCase struct {
+	cond string
+	vals []string
 }
 
 type valueCase struct{ cond, val string }
@@ -72,6 +90,11 @@ type guardTr struct {
 	shifts   []string               // every shift count a << k
 	loopInit []string               // initial value of the loop variable of every `for i := e; …`
 	loops    []string    // loop conditions
+	slices   []string              // Slices: "[lo, hi]" per slice expression, in source order
+	rets     []retCase             // Rets: condition of a success return -> rendered results
+	args     map[string][]retCase  // Args: callee -> (path condition, rendered arguments) per call
+	entry    []string              // per scope: the condition under which it is entered ("" = the scope of the function body, "<opaque>" = a loop / switch body)
+	next     string                // the entry condition of the scope the next walk() opens
 	cases    []valueCase // Boolean functions: condition -> returned literal, in source order
 	deflt    string      // Boolean functions: the final return
 	errChk   int
@@ -315,6 +338,22 @@ func (tr *guardTr) assign(lhs []ast.Expr, rhs []ast.Expr, define bool) {
 			}
 		}
 	}
+	if define && len(rhs) == 1 && len(lhs) >= 1 && len(tr.site.DefAll) > 0 {
+		if call, ok := rhs[0].(*ast.CallExpr); ok {
+			if names, ok := tr.site.DefAll[tr.text(call.Fun)]; ok {
+				for i, l := range lhs {
+					if id, ok := l.(*ast.Ident); ok && id.Name != "_" {
+						v := ""
+						if i < len(names) {
+							v = names[i]
+						}
+						tr.scopes[len(tr.scopes)-1][id.Name] = v
+					}
+				}
+				return
+			}
+		}
+	}
 	if define && len(rhs) == 1 && len(lhs) >= 1 && len(tr.site.DefBy) > 0 {
 		if call, ok := rhs[0].(*ast.CallExpr); ok {
 			if lean, ok := tr.site.DefBy[tr.text(call.Fun)]; ok {
@@ -362,6 +401,97 @@ func (tr *guardTr) assign(lhs []ast.Expr, rhs []ast.Expr, define bool) {
 	}
 }
 
+// update: `x++`, `x += d` on an inlined local. In the scope of its definition the new value is
+// `old + d`; in a scope entered under condition c (an `if` body) it is `if c then old + d else old`
+// for the code after that `if`; inside a loop or a switch the name becomes opaque.
+func (tr *guardTr) update(name, delta string) {
+	if _, declared := tr.site.Map[name]; declared {
+		return
+	}
+	for i := len(tr.scopes) - 1; i >= 0; i-- {
+		old, ok := tr.scopes[i][name]
+		if !ok {
+			continue
+		}
+		if old == "" {
+			return
+		}
+		c := ""
+		for j := i + 1; j < len(tr.scopes); j++ {
+			if j >= len(tr.entry) || tr.entry[j] == "<opaque>" || tr.entry[j] == "" {
+				tr.scopes[i][name] = ""
+				return
+			}
+			c = conj(c, tr.entry[j])
+		}
+		if c == "" {
+			tr.scopes[i][name] = "(" + old + delta + ")"
+		} else {
+			// inside the branch the name reads as the new value, after it as the conditional one
+			tr.scopes[len(tr.scopes)-1][name] = "(" + old + delta + ")"
+			tr.scopes[i][name] = "(if " + c + " then (" + old + delta + ") else " + old + ")"
+		}
+		return
+	}
+	tr.setOpaque(name)
+}
+
+// sliceBounds: the bounds of the slice expressions of one statement (not of the blocks nested in
+// it: those are visited as statements of their own), with the values the locals have there
+func (tr *guardTr) sliceBounds(st ast.Stmt) {
+	if !tr.site.Slices {
+		return
+	}
+	ast.Inspect(st, func(n ast.Node) bool {
+		switch x := n.(type) {
+		case *ast.BlockStmt:
+			return false
+		case *ast.SliceExpr:
+			lo, hi := "-1", "-1"
+			if x.Low != nil {
+				lo, _ = tr.intExpr(x.Low)
+			}
+			if x.High != nil {
+				hi, _ = tr.intExpr(x.High)
+			}
+			tr.slices = append(tr.slices, "["+lo+", "+hi+"]")
+		}
+		return true
+	})
+}
+
+// callArgs: the integer arguments of the calls the site asks for, where the call is made
+func (tr *guardTr) callArgs(e ast.Expr, path string) {
+	if len(tr.site.Args) == 0 || e == nil {
+		return
+	}
+	ast.Inspect(e, func(n ast.Node) bool {
+		call, ok := n.(*ast.CallExpr)
+		if !ok {
+			return true
+		}
+		pos, ok := tr.site.Args[tr.text(call.Fun)]
+		if !ok {
+			return true
+		}
+		rc := retCase{cond: path}
+		if rc.cond == "" {
+			rc.cond = "true"
+		}
+		for _, i := range pos {
+			if i < len(call.Args) {
+				v, _ := tr.intExpr(call.Args[i])
+				rc.vals = append(rc.vals, v)
+			}
+		}
+		if tr.args == nil {
+			tr.args = map[string][]retCase{}
+		}
+		tr.args[tr.text(call.Fun)] = append(tr.args[tr.text(call.Fun)], rc)
+		return true
+	})
+}
+
 // diverts: the block always leaves the enclosing statement list (return / continue / break)
 func diverts(b *ast.BlockStmt) bool {
 	if b == nil || len(b.List) == 0 {
@@ -383,16 +513,45 @@ func diverts(b *ast.BlockStmt) bool {
 // order of the lists carries that (the first condition that holds decides).
 func (tr *guardTr) walk(b *ast.BlockStmt, path string, top bool) {
 	tr.scopes = append(tr.scopes, map[string]string{})
-	defer func() { tr.scopes = tr.scopes[:len(tr.scopes)-1] }()
+	tr.entry = append(tr.entry, tr.next)
+	tr.next = "<opaque>"
+	defer func() { tr.scopes = tr.scopes[:len(tr.scopes)-1]; tr.entry = tr.entry[:len(tr.entry)-1] }()
 	for _, st := range b.List {
+		if es, ok := st.(*ast.ExprStmt); ok {
+			tr.callArgs(es.X, path)
+		}
+		tr.sliceBounds(st)
 		switch s := st.(type) {
 		case *ast.AssignStmt:
+			for _, r := range s.Rhs {
+				tr.callArgs(r, path)
+			}
+			if (s.Tok == token.ADD_ASSIGN || s.Tok == token.SUB_ASSIGN) && len(s.Lhs) == 1 && len(s.Rhs) == 1 {
+				op := " + "
+				if s.Tok == token.SUB_ASSIGN {
+					op = " - "
+				}
+				if id, ok := s.Lhs[0].(*ast.Ident); ok {
+					save := tr.unknown
+					if d, ok := tr.intExpr(s.Rhs[0]); ok {
+						tr.update(id.Name, op+d)
+					} else {
+						tr.unknown = save
+						tr.setOpaque(id.Name)
+					}
+				}
+				continue
+			}
 			if !tr.flagAssign(s.Lhs, s.Rhs, path, s.Tok == token.DEFINE) {
 				tr.assign(s.Lhs, s.Rhs, s.Tok == token.DEFINE)
 			}
 		case *ast.IncDecStmt:
 			if id, ok := s.X.(*ast.Ident); ok {
-				tr.setOpaque(id.Name)
+				if s.Tok == token.INC {
+					tr.update(id.Name, " + 1")
+				} else {
+					tr.update(id.Name, " - 1")
+				}
 			}
 		case *ast.DeclStmt:
 			if gd, ok := s.Decl.(*ast.GenDecl); ok {
@@ -426,11 +585,14 @@ func (tr *guardTr) walk(b *ast.BlockStmt, path string, top bool) {
 				}
 				continue
 			}
+			tr.next = c
 			tr.walk(s.Body, conj(path, c), false)
 			switch e := s.Else.(type) {
 			case *ast.BlockStmt:
+				tr.next = "(!" + c + ")"
 				tr.walk(e, conj(path, "(!"+c+")"), false)
 			case *ast.IfStmt:
+				tr.next = "(!" + c + ")"
 				tr.walk(&ast.BlockStmt{List: []ast.Stmt{e}}, conj(path, "(!"+c+")"), false)
 			}
 			if !top && s.Else == nil && diverts(s.Body) {
@@ -495,6 +657,22 @@ func (tr *guardTr) walk(b *ast.BlockStmt, path string, top bool) {
 				tr.breaks = append(tr.breaks, path)
 			}
 		case *ast.ReturnStmt:
+			for _, r := range s.Results {
+				tr.callArgs(r, path)
+			}
+			if len(tr.site.Rets) > 0 && !(tr.hasErr && returnsError(s)) {
+				rc := retCase{cond: path}
+				if rc.cond == "" {
+					rc.cond = "true"
+				}
+				for _, i := range tr.site.Rets {
+					if i < len(s.Results) {
+						v, _ := tr.intExpr(s.Results[i])
+						rc.vals = append(rc.vals, v)
+					}
+				}
+				tr.rets = append(tr.rets, rc)
+			}
 			if top {
 				if tr.boolFunc && len(s.Results) == 1 {
 					c, _, _ := tr.cond(s.Results[0])
@@ -723,6 +901,34 @@ func genGuardFile(file string, sites []guardSite) {
 		}
 		sort.Strings(keys)
 		fmt.Fprintf(&sb, "/-! ### %s — %s, `%s.%s`\n%s  (%d further conditions test the error of a call) -/\n\n", s.Name, s.File, s.Recv, s.Func, strings.Join(keys, "; "), tr.errChk)
+		if len(s.Rets) > 0 {
+			var rows []string
+			for _, rc := range tr.rets {
+				rows = append(rows, "("+rc.cond+", ["+strings.Join(rc.vals, ", ")+"])")
+			}
+			fmt.Fprintf(&sb, "/-- its returns that are not error returns, in source order: the condition of the branch the `return` sits in\n(`true`: the final return, reached when nothing before it returned) and the integer results at positions %v -/\ndef %s_returns%s : List (Bool × List Int) := %s\n\n", s.Rets, s.Name, params, leanBoolList(rows))
+		}
+		if len(s.Args) > 0 {
+			var callees []string
+			for c := range s.Args {
+				callees = append(callees, c)
+			}
+			sort.Strings(callees)
+			for _, c := range callees {
+				var rows []string
+				for _, rc := range tr.args[c] {
+					rows = append(rows, "("+rc.cond+", ["+strings.Join(rc.vals, ", ")+"])")
+				}
+				id := regexp.MustCompile(`[^A-Za-z0-9]+`).ReplaceAllString(c, "_")
+				fmt.Fprintf(&sb, "/-- every call of `%s`, in source order: the condition of the branch it sits in and its integer arguments at positions %v -/\ndef %s_args_%s%s : List (Bool × List Int) := %s\n\n", c, s.Args[c], s.Name, id, params, leanBoolList(rows))
+			}
+		}
+		if s.Slices {
+			fmt.Fprintf(&sb, "/-- the bounds `[lo, hi]` of every slice expression `x[lo:hi]` of the function, in source order (-1: absent) -/\ndef %s_slices%s : List (List Int) := %s\n\n", s.Name, params, leanBoolList(tr.slices))
+		}
+		if s.OnlyRets {
+			continue
+		}
 		if tr.hasErr {
 			fmt.Fprintf(&sb, "/-- the conditions under which it returns an error, in source order -/\ndef %s_guards%s : List Bool := %s\n\n", s.Name, params, leanBoolList(tr.guards))
 		}
